@@ -588,16 +588,20 @@ def reverseW [Geo V N] (dim3 : Bool) (s : Mesh V N) : Option (Mesh V N) :=
     | some (s, _) => some s
   else some s
 
-/-- `reverse` with `fixes/C11-reverse.diff`: edge pseudo-normals 1 and 2 exchanged, topology recomputed
-whenever the flags keep one -/
-def reverse [Geo V N] (dim3 : Bool) (s : Mesh V N) : Option (Mesh V N) :=
-  let s := { s with indices := revIdx s.indices }
-  let s := if dim3 then { s with pn := s.pn.map (negPN (V := V) · true) } else s
+/-- `if flags.intersects(HALF_EDGE_TOPOLOGY | DELETE_BAD_TOPOLOGY_TRIANGLES) { let _ = self.compute_topology(false); }` -/
+def retopo (s : Mesh V N) : Option (Mesh V N) :=
   if s.flags.topoFamily then
     match topoStep s false with
     | none => none
     | some (s, _) => some s
   else some s
+
+/-- `reverse` with `fixes/C11-reverse.diff`: edge pseudo-normals 1 and 2 exchanged, topology recomputed
+whenever the flags keep one -/
+def reverse [Geo V N] (dim3 : Bool) (s : Mesh V N) : Option (Mesh V N) :=
+  let s := { s with indices := revIdx s.indices }
+  let s := if dim3 then { s with pn := s.pn.map (negPN (V := V) · true) } else s
+  retopo s
 
 /-- buffers of `append` before the rebuild -/
 def appendBuffers (s rhs : Mesh V N) : List V × List Tri :=
